@@ -103,11 +103,13 @@ def run(cx, out):
         unit(out, facts)
         S = shape.Shapes(facts)
         n_casts = 0
+        n_terms = 0
         # ---- R15.1 over all encoders
         for i in facts.impls_of('Encode'):
             src = S.source_term(i)
             if not src or src[0] == 'none':
                 continue
+            n_terms += 1
             m, term, fn = src
             n_casts += check_casts_on_term(out, 'cast in %s [%s]' % (fkey(fn), cfg), term, {}, fn['loc'])
         f = facts.by_path.get('encode_append::append_or_new_impl')
@@ -127,7 +129,8 @@ def run(cx, out):
             out.fail('R15.2', key, 'unrecognised construct: ' + sym.has_opaque(t)[0][1], sym.has_opaque(t)[0][2])
             continue
         n_casts += check_casts_on_term(out, 'cast in append_or_new_impl [%s]' % cfg, t, ctx.sinks, f['loc'])
-        out.floor('R15.1', 'narrowing length casts examined [%s]' % cfg, n_casts, 8)
+        out.count('narrowing length casts examined [%s]' % cfg, n_casts)
+        out.floor('R15.1', 'encoder terms scanned for narrowing casts [%s]' % cfg, n_terms, 60)
         s = sym.tstr(t)
         its = items(t)
         why2, why3, why4 = [], [], []
@@ -140,16 +143,19 @@ def run(cx, out):
             e_arm = arms['true']
             okp = [x for x in sym.walk(e_arm) if shape._is_count_helper(x)]
             first_sink = ctx.sinks['vec'][0] if ctx.sinks['vec'] else None
+            # the count helper (any spelling of the range check: `as u32` under a guard, `u32::try_from`) applied to the
+            # number of items of the iterator
+            cnt = shape._count_of_helper(okp[0][2]) if okp else None
             if not okp or not first_sink or first_sink[0] != 'enc' or first_sink[1] != 'compact::Compact<u32>' or \
-                    sym.vstr(first_sink[2]) != 'Compact::Compact{0: (len(into_iter(iter)) as u32)}':
+                    cnt is None or sym.vstr(cnt) not in ('into_iter(iter)', 'len(into_iter(iter))'):
                 why3.append('empty input does not write Compact(item count) alone')
             ne = arms['false']
             nes = sym.tstr(ne)
             old = 'conv(try(decode(index(sinkvec, RangeFull::RangeFull{}))))'
             decs = []
-            contains(tuple([x[1][1] if x[0] == 'alt' else ('unit',) for x in sym.walk(ne) if x[0] == 'alt']),
+            contains(('scrutinees',) + tuple([(x[1][1] if (isinstance(x[1], tuple) and x[1] and x[1][0] == 'if') else x[1]) for x in sym.walk(ne) if x[0] == 'alt']),
                      lambda y: (decs.append(y) or False) if (isinstance(y, tuple) and len(y) > 5 and y[0] == 'call' and y[1] == 'decode' and y[5] == 'Decode') else False)
-            if not decs or decs[0][4][0] != 'compact::Compact<u32>':
+            if not any(d[4] and d[4][0] == 'compact::Compact<u32>' for d in decs):
                 why2.append('old count is not read with Compact<u32>::decode')
             if 'try(decode(' not in nes:
                 why2.append('failure to decode the old count is not propagated')
@@ -215,6 +221,7 @@ def run(cx, out):
         for g in facts.methods('EncodeAppend', 'append_or_new'):
             n += 1
             ev2 = sym.Evaluator(facts)
+            ev2.inline_effectful = False     # the forwarding call itself is what is checked here
             c2 = sym.Ctx(ev2, g)
             for p in g['params']:
                 c2.env[p['v']] = ('param', p['name'], None)
